@@ -35,6 +35,13 @@ CHECKS = {
         "trusted: raw DuckDB catalog as ground truth; not demanded: which schema is current after USE DATABASE, error codes other than 90105/90106",
         "explicit-state model checking (depth-bounded BFS, real implementation as transition function) against a catalog+context reference model",
     ),
+    "C15": (
+        "E1-bfs",
+        "model_checking",
+        "explicit-state BFS over histories of SET/UNSET/SET-from-variable/execute_string on two connections (state = the two variable maps); every applicable operation is executed from every reached state on a fresh instance and followed by a complete observation battery (all names in both letter cases through two cursors and the other connection, WHERE/IDENTIFIER()/expression positions, undefined references, non-reference '$' texts)",
+        "trusted: nothing beyond DuckDB evaluating literals; not demanded: UNSET of an undefined variable, multi-assignment SET, positional $1",
+        "explicit-state model checking (BFS over variable-map states, depth-bounded; fixpoint not reached) against a dict-per-connection reference model",
+    ),
 }
 
 NOT_BUILT = "check not built yet in this round (planned per DESIGN.md §3); no claim is made"
